@@ -240,7 +240,7 @@ func (s *Sched) chance(p float64, tag string) bool {
 //go:norace
 func Choose(n int, tag string) int {
 	if !active {
-		panic("simrt.Choose outside a simulation")
+		return 0
 	}
 	return sched.choose(n, tag)
 }
@@ -250,7 +250,7 @@ func Choose(n int, tag string) int {
 //go:norace
 func Chance(p float64, tag string) bool {
 	if !active {
-		panic("simrt.Chance outside a simulation")
+		return false
 	}
 	return sched.chance(p, tag)
 }
@@ -765,6 +765,13 @@ func Fair(on bool) {
 //go:norace
 func Quiesce(maxSteps int64, maxJumps int) bool {
 	if !active {
+		// real-goroutine mode (differential validation against unrewritten
+		// moss): give the background goroutines real time
+		d := time.Duration(maxSteps) * 20 * time.Microsecond
+		if d > 150*time.Millisecond {
+			d = 150 * time.Millisecond
+		}
+		time.Sleep(d)
 		return true
 	}
 	s := sched
